@@ -40,6 +40,9 @@ R_GAS = 10.73159
 @st.composite
 def strategy_(draw):
     g = draw(gens.gas_state())
+    if draw(st.integers(0, 9)) == 0:
+        # towards zero pressure (the correlations' range has no lower pressure limit: Z -> 1, c_g -> 1/p)
+        g = dict(g, p=draw(gens.loguniform(1e-10, 1e-4)) * g["ppc"])
     oil = draw(gens.oil_params())
     return {
         "gas": {
